@@ -133,3 +133,6 @@ def check(ck: Checker) -> None:
     for o in ck.obs:
         if o.rule == "C13.batch":
             o.rule = "C16.statetx"
+    from . import round10 as _r10
+
+    _r10.state_rows_upserted_atomically(ck, "C16.statetx")
